@@ -23,40 +23,55 @@ from snaxc.dialects import accfg
 State = dict[str, SSAValue]
 
 
-def infer_state_of(state_var: SSAValue) -> State:
+def infer_state_of(state_var: SSAValue, assume: dict[SSAValue, State] | None = None) -> State:
     """
     Entrance function of the inference pass.
 
     This walks up the def-use chain to compute all values
     that are guaranteed to be set in this state.
     """
+    if assume is not None and state_var in assume:
+        return dict(assume[state_var])
     owner = state_var.owner
     match owner:
         case accfg.SetupOp(in_state=None) as setup_op:
             return {name: val for name, val in setup_op.iter_params()}
         case accfg.SetupOp(in_state=st) as setup_op if st is not None:
-            in_state = infer_state_of(st)
+            in_state = infer_state_of(st, assume)
             in_state.update(dict(setup_op.iter_params()))
             return in_state
         case scf.IfOp() as if_op:
-            return state_intersection(*infer_states_for_if(if_op, state_var))
+            return state_intersection(*infer_states_for_if(if_op, state_var, assume))
         case scf.ForOp() as for_op:
             yield_op = for_op.body.block.last_op
             assert isinstance(yield_op, scf.YieldOp)
             assert state_var in for_op.results  # this must be true because state_var.owner == for_op
-            return infer_state_of(yield_op.operands[for_op.results.index(state_var)])
+            idx = for_op.results.index(state_var)
+            # the loop may run zero times: only keep what holds on both paths
+            return state_intersection(
+                infer_state_of(for_op.iter_args[idx], assume), infer_state_of(yield_op.operands[idx], assume)
+            )
         case Block() as block:
             match block.parent_op():
                 case scf.ForOp() as for_op:
                     assert isinstance(state_var, BlockArgument)  # must be a block argument for owner to be a block!
-                    return infer_state_of(for_op.iter_args[state_var.index - 1])
+                    init = infer_state_of(for_op.iter_args[state_var.index - 1], assume)
+                    yield_op = for_op.body.block.last_op
+                    assert isinstance(yield_op, scf.YieldOp)
+                    # only keep what still holds when coming around the back edge
+                    yielded = infer_state_of(
+                        yield_op.operands[state_var.index - 1], {**(assume or {}), state_var: init}
+                    )
+                    return state_intersection(init, yielded)
                 case _:
                     return {}
         case _:
             raise ValueError(f"Cannot infer state for op {owner.name}")
 
 
-def infer_states_for_if(op: scf.IfOp, state: SSAValue) -> tuple[State, State]:
+def infer_states_for_if(
+    op: scf.IfOp, state: SSAValue, assume: dict[SSAValue, State] | None = None
+) -> tuple[State, State]:
     """
     Walk both sides of the if/else block and return the computed
     states for the given state SSA value (`state`)
@@ -71,7 +86,7 @@ def infer_states_for_if(op: scf.IfOp, state: SSAValue) -> tuple[State, State]:
         assert isinstance(yield_op, scf.YieldOp)
         # we know the yield op has the same number of operands as the
         # scf.if has results, so [idx] must be defined
-        states.append(infer_state_of(yield_op.operands[idx]))
+        states.append(infer_state_of(yield_op.operands[idx], assume))
     assert len(states) == 2
     return states[0], states[1]
 
